@@ -61,6 +61,24 @@ func enterLeaveScenario(s *hx.Seq) {
 		s.State(name)
 		m := enterleavesensorpb.NewModel()
 		var enter, leave int32
+		// the first step also picks how the model was constructed: default, or from an initial event that carries
+		// both totals, one of them, or none ("models constructed with explicit configuration use it")
+		if len(path) > 0 {
+			switch path[0] % 5 {
+			case 1:
+				m, enter, leave = enterleavesensorpb.NewModel(enterleavesensorpb.WithInitialEnterLeaveEvent(&traits.EnterLeaveEvent{EnterTotal: i32(3), LeaveTotal: i32(2)})), 3, 2
+				name += " (initial event enter_total=3 leave_total=2)"
+			case 2:
+				m, enter = enterleavesensorpb.NewModel(enterleavesensorpb.WithInitialEnterLeaveEvent(&traits.EnterLeaveEvent{EnterTotal: i32(3)})), 3
+				name += " (initial event enter_total=3)"
+			case 3:
+				m, leave = enterleavesensorpb.NewModel(enterleavesensorpb.WithInitialEnterLeaveEvent(&traits.EnterLeaveEvent{LeaveTotal: i32(2)})), 2
+				name += " (initial event leave_total=2)"
+			case 4:
+				m = enterleavesensorpb.NewModel(enterleavesensorpb.WithInitialEnterLeaveEvent(&traits.EnterLeaveEvent{Direction: traits.EnterLeaveEvent_ENTER}))
+				name += " (initial event without totals)"
+			}
+		}
 		for step, oi := range path {
 			o := ops[oi]
 			var err error
